@@ -176,6 +176,12 @@ impl WorldC {
                         }
                     }
                     obs.count("probe.session_established");
+                    if self.cfg.get("unsecure") == 1 {
+                        obs.count("probe.unsecure_session_established");
+                    }
+                    if client_id == LOCAL_ID {
+                        obs.count("probe.local_client_hosted");
+                    }
                 }
                 ServerEvent::ClientDisconnected { client_id, reason } => {
                     let was = self.ev_connected.insert(client_id, false).unwrap_or(false);
